@@ -61,6 +61,17 @@ def ruleOut : List Rule → Out
 def attached (c : Chain) : Bool := (preRun c.pre).1
 def outcome (c : Chain) : Out := if (preRun c.pre).2 then .panic else ruleOut c.rules
 
+/-- The built-in rule slots of the default chain, reduced to what the rules of a C01 case can make them do
+    (the decisions themselves are C04's / C05's subject): an isolation rule with threshold `T` blocks iff
+    `max(gauge, 0) + batch > T` (`isolation.checkPass` reads `CurrentConcurrency()` of the attached node);
+    otherwise a hotspot rule on argument 0 panics on an unhashable value (prefix `u:`). -/
+def defaultRule (iso : Option Nat) (hot : Bool) (conc : Int) (batch : Nat) (args : List String) : Rule :=
+  let blocked := match iso with
+    | some T => decide (conc.toNat + batch > T)
+    | none => false
+  let panics := hot && (match args.head? with | some a => a.startsWith "u:" | none => false)
+  if blocked then .block else if panics then .panic else .pass
+
 /-! ## ops -/
 
 structure EntryOp where
